@@ -7,7 +7,9 @@
 // validators as signers (2^N) plus the boundary classes built just below each threshold (duplicated
 // bookkeeper, duplicated signature, foreign key, corrupted signature, signature over another hash,
 // bookkeeper listed without signature, unlisted member signature, foreign signature, trailing garbage,
-// reversed signature order). Oracle (implication): accept => #distinct set members with a valid signature
+// reversed signature order, and for quorum >= 2 the positional repeated-signature classes: every listed order
+// of the first 2 (thorough 3) genuine bookkeepers x every assignment with repetition of those SigData slots
+// to the listed members, all slots valid). Oracle (implication): accept => #distinct set members with a valid signature
 // over the header hash >= m and no foreign / duplicate bookkeeper listed; m = N-floor(6N/7) where the
 // legacy rule applies, N-floor((N-1)/3) otherwise. After EVERY call the validator sets in force held by the
 // ledger (header path / block path) must equal the reference sets, and a rejected call must leave
@@ -58,6 +60,8 @@ const forkTip = 20000000 // legacy rule applies on main net while the header tip
 const lowFill = 1 << 16
 
 var r *ev.Run
+
+var posK3 bool // thorough: positional classes over the first 3 listed bookkeepers (quick: 2)
 
 // ---------------------------------------------------------------------------------------------
 // reference arithmetic and signature judgement (shares nothing with verifyHeader/VerifyMultiSignature)
@@ -244,6 +248,55 @@ func specsFor(set []*polyenv.Acct, foreign *polyenv.Acct) []sigSpec {
 			rev[t-1-i] = first[i]
 		}
 		out = append(out, sigSpec{tag("reversed-signatures"), first, good(rev...)})
+	}
+	// positional repeated-signature classes (quorum >= 2): t distinct genuine bookkeepers listed in every
+	// order of the first k of them, every assignment (with repetition) of the first k SigData slots to those
+	// k members, the remaining slots signed by their own bookkeeper; every slot is a VALID signature.
+	for _, t := range tl {
+		if t < 2 || t > n {
+			continue
+		}
+		k := 2
+		if posK3 && t >= 3 {
+			k = 3
+		}
+		var perms [][]int
+		var gen func(cur []int, used int)
+		gen = func(cur []int, used int) {
+			if len(cur) == k {
+				perms = append(perms, append([]int{}, cur...))
+				return
+			}
+			for i := 0; i < k; i++ {
+				if used&(1<<uint(i)) == 0 {
+					gen(append(cur, i), used|1<<uint(i))
+				}
+			}
+		}
+		gen(nil, 0)
+		total := 1
+		for i := 0; i < k; i++ {
+			total *= k
+		}
+		for _, pm := range perms {
+			listed := make([]*polyenv.Acct, t)
+			copy(listed, set[:t])
+			on := ""
+			for i, x := range pm {
+				listed[i] = set[x]
+				on += string(rune('A' + x))
+			}
+			for a := 0; a < total; a++ {
+				signers := make([]*polyenv.Acct, t)
+				copy(signers, listed)
+				sn := ""
+				for i, x := 0, a; i < k; i, x = i+1, x/k {
+					signers[i] = set[x%k]
+					sn += string(rune('A' + x%k))
+				}
+				out = append(out, sigSpec{fmt.Sprintf("positional/t=%d/listed=%s/signed=%s", t, on, sn), listed, good(signers...)})
+			}
+		}
 	}
 	out = append(out, sigSpec{"all-listed-no-signature", set, nil})
 	return out
@@ -722,6 +775,9 @@ func (s *sim) sweepPhase(phase string, paths []string, specs []sigSpec, vec *[]b
 			if phase == "tip=20000000" {
 				break
 			}
+			if r.Quick() && strings.HasPrefix(sp.name, "positional/") {
+				continue
+			}
 			if r.Quick() && strings.HasPrefix(sp.name, "subset/") && !firstK(sp, s.gvals) {
 				continue // quick: one subset per size (the first k validators); thorough: all 2^N
 			}
@@ -1102,6 +1158,7 @@ func main() {
 	}()
 	maxN := r.QT(7, 10)
 	initEvents(r.Thorough())
+	posK3 = r.Thorough()
 	depth := r.QT(3, 4)
 	type job struct {
 		main bool
